@@ -355,6 +355,8 @@ func c11(c *Ctx) {
 	// atomic reservation (C20.R1)
 	if !c.importing {
 		importSibling(c, "C20", "C11.R9", func(rule string) bool { return rule == "C20.R1" })
+		// R10: at quiescence everything a builder mocked is restored: Reset cancels every cached mocker unconditionally (C02.R5)
+		importSibling(c, "C02", "C11.R10", func(rule string) bool { return rule == "C02.R5" })
 	}
 	// ---- R5: what two builders hand to the patch layer is private to each of them: the entry-jump emitters return fresh
 	// bytes, never a view of package-level storage (shared with C01.R1 / C15.E)
@@ -584,6 +586,17 @@ func c11Arch(c *Ctx, p *Prog) {
 			}
 		}
 	}
+	// a function counts as "runs only inside the initialiser" only if nothing outside the initialiser's reach calls it
+	// (a function whose value is merely mentioned by the initialiser — reflect.ValueOf(f).Pointer() — is reachable for the
+	// conservative graph, but its own callers run it without the Once)
+	calledOutsideOnce := func(fn *ssa.Function) bool {
+		for _, cs := range p.callersOf(fn) {
+			if !onceInit[cs.Caller] {
+				return true
+			}
+		}
+		return false
+	}
 	nGlob := 0
 	for _, pk := range p.Pkgs {
 		sp := p.SPkg[pk.PkgPath]
@@ -747,7 +760,10 @@ func c11Arch(c *Ctx, p *Prog) {
 				if a.How == "field load" || a.How == "load" {
 					// plain read of a field next to atomics (immutable after init) is fine only if never written post-init
 				}
-				if !onceInit[a.Fn] {
+				// a container (map / slice element / field) mutated in place by a function that also runs outside the
+				// initialiser is not "written only inside the Once", even if the initialiser can reach that function
+				inPlace := a.How == "map update" || a.How == "map delete" || a.How == "element store" || a.How == "field store"
+				if !onceInit[a.Fn] || (inPlace && calledOutsideOnce(a.Fn)) {
 					if a.Write {
 						allOnce = false
 					}
